@@ -22,7 +22,7 @@ func DecodeDependencies(buf []byte) ([]PackageDependency, error) {
 	var out []PackageDependency
 	cursor := parse.NewAtomCursor(buf)
 	for {
-		dep, err := decodeDependency(cursor)
+		dep, err := decodeDependency(cursor, 0)
 		if err != nil {
 			return nil, err
 		}
@@ -90,20 +90,30 @@ var toktype_to_pkg_dep map[int]int = map[int]int{
 	toktype_at_most_one_of: Pkg_dep_at_most_one_of,
 }
 
-func decodeDependency(ac *parse.AtomCursor) (PackageDependency, error ) {
+// depth is the number of parenthesized groups open around the token being decoded.
+func decodeDependency(ac *parse.AtomCursor, depth int) (PackageDependency, error ) {
 	var dep PackageDependency
 	var newType int
 	var err error
 	start, toktype, useFlag := getToken(ac)
 	switch toktype {
-	case toktype_eof, toktype_close:
+	case toktype_eof:
+		if depth > 0 {
+			return nil, fmt.Errorf("missing closing parenthesis at end of dependencies")
+		}
+		return nil, nil
+	case toktype_close:
+		if depth == 0 {
+			return nil, fmt.Errorf("unbalanced closing parenthesis: %s",
+				ac.SampleAfterPos(start))
+		}
 		return nil, nil
 	case toktype_error:
 		return nil, fmt.Errorf("unrecognized dependency token %s", ac.RemainingToken())
 	case toktype_open:
 		var list []PackageDependency
 		for {
-			dp, err := decodeDependency(ac)
+			dp, err := decodeDependency(ac, depth + 1)
 			if err != nil {
 				return nil, err
 			}
@@ -115,7 +125,7 @@ func decodeDependency(ac *parse.AtomCursor) (PackageDependency, error ) {
 		dep = &ConditionalPackageDependency{Type: Pkg_dep_all, Deps: list}
 		return dep, nil
 	case toktype_when_use_set, toktype_when_use_unset:
-		dep, err = decodeDependency(ac)
+		dep, err = decodeDependency(ac, depth)
 		if err != nil {
 			return nil, err
 		}
@@ -138,7 +148,7 @@ func decodeDependency(ac *parse.AtomCursor) (PackageDependency, error ) {
 		}
 		return dep, nil
 	case toktype_any_of, toktype_exactly_one_of, toktype_at_most_one_of:
-		dep, err = decodeDependency(ac)
+		dep, err = decodeDependency(ac, depth)
 		if err != nil {
 			return nil, err
 		}
